@@ -62,6 +62,16 @@ namespace
         Tiny(int x = 0) : v((uint16_t)x) {}
     };
     int val_of(const Tiny &t) { return t.v; }
+    // an element with an extended alignment: every slot of the inline storage must be aligned for it
+    struct alignas(32) Wide32
+    {
+        int v;
+        Wide32(int x = 0) : v(x)
+        {
+            if ((uintptr_t)this % 32 != 0) kit::defer_violation("C14/element-misaligned", "an element of alignment 32 was constructed at an address that is %zu modulo 32", (size_t)((uintptr_t)this % 32));
+        }
+    };
+    int val_of(const Wide32 &t) { return t.v; }
     template <class E> struct Watch
     {
         static void zone(int, const void *, size_t) {}
@@ -403,7 +413,8 @@ namespace
         res.nontrivial = overflow_offered;
     }
 
-    template <class E> struct SVWorld : World
+    // FULL: all six capacities (1, 2, 3, 4, 8, 256); otherwise three of them (the extra element types: build time)
+    template <class E, bool FULL = true> struct SVWorld : World
     {
         const char *nm;
         bool tr_;
@@ -427,8 +438,8 @@ namespace
         }
         std::string describe(const Plan &p) override
         {
-            static const int NS[] = {1, 2, 3, 4, 8, 256};
-            std::string s = "N=" + std::to_string(NS[mod(p.c(2), 6)]) + " fill=" + std::to_string(mod(p.c(0), 4)) + ":";
+            static const int NS[] = {1, 2, 3, 4, 8, 256}, NR[] = {1, 3, 8};
+            std::string s = "N=" + std::to_string(FULL ? NS[mod(p.c(2), 6)] : NR[mod(p.c(2), 6) / 2]) + " fill=" + std::to_string(mod(p.c(0), 4)) + ":";
             for (auto &o : p.ops) s += std::string(" ") + (arg(o, 1) % 2 ? "B." : "A.") + S_NAME[mod(arg(o, 0), S_N)] + "(" + std::to_string(arg(o, 2)) + "," + std::to_string(arg(o, 3)) + ")";
             return s;
         }
@@ -437,14 +448,26 @@ namespace
             Result res;
             simalloc::st().reset((int)p.c(0), p.c(1) != 0);
             tracked::reg().reset("C14");
-            switch ((int)mod(p.c(2), 6))
+            if constexpr (FULL)
             {
-            case 0: run_sv<E, 1>(p, tr, res); break;
-            case 1: run_sv<E, 2>(p, tr, res); break;
-            case 2: run_sv<E, 3>(p, tr, res); break;
-            case 3: run_sv<E, 4>(p, tr, res); break;
-            case 4: run_sv<E, 8>(p, tr, res); break;
-            default: run_sv<E, 256>(p, tr, res); break; // the size counter needs more than one byte
+                switch ((int)mod(p.c(2), 6))
+                {
+                case 0: run_sv<E, 1>(p, tr, res); break;
+                case 1: run_sv<E, 2>(p, tr, res); break;
+                case 2: run_sv<E, 3>(p, tr, res); break;
+                case 3: run_sv<E, 4>(p, tr, res); break;
+                case 4: run_sv<E, 8>(p, tr, res); break;
+                default: run_sv<E, 256>(p, tr, res); break; // the size counter needs more than one byte
+                }
+            }
+            else
+            {
+                switch ((int)mod(p.c(2), 6) / 2)
+                {
+                case 0: run_sv<E, 1>(p, tr, res); break;
+                case 1: run_sv<E, 3>(p, tr, res); break;
+                default: run_sv<E, 8>(p, tr, res); break;
+                }
             }
             if (tr_) tracked::check_balance();
             if (simalloc::live_blocks() != 0) violate("C14/harness", "simulated memory not released");
@@ -656,14 +679,15 @@ int main(int argc, char **argv)
 {
     SVWorld<int> wi(PARTNAME "static_vector<int>", false);
     SVWorld<tracked::T> wt(PARTNAME "static_vector<Tracked>", true);
-    SVWorld<Handle> wh(PARTNAME "static_vector<Handle>", false);
-    SVWorld<Tiny> wy(PARTNAME "static_vector<2-byte element>", false);
-    SVWorld<UCell> wu(PARTNAME "static_vector<union element with a destructor>", false);
+    SVWorld<Handle, false> wh(PARTNAME "static_vector<Handle>", false);
+    SVWorld<Tiny, false> wy(PARTNAME "static_vector<2-byte element>", false);
+    SVWorld<UCell, false> wu(PARTNAME "static_vector<union element with a destructor>", false);
+    SVWorld<Wide32, false> ww(PARTNAME "static_vector<element aligned to 32 bytes>", false);
     SSWorld ws;
     Harness h;
     h.property = "C14";
     BigCapWorld wbig;
-    h.worlds = {&wi, &wt, &ws, &wh, &wy, &wu, &wbig};
+    h.worlds = {&wi, &wt, &ws, &wh, &wy, &wu, &wbig, &ww};
 #ifdef C14_TWIN
     h.real = {"igris/container/std_portable.h (static_vector, static_string twins)"};
 #else
